@@ -317,7 +317,9 @@ def gen_em(rng, tier):
     lat = [rng.randrange(n)] if rng.random() < .75 else []
     rows = [[rng.randrange(2) for _ in range(n)] for _ in range(rng.randint(8, 25))]
     return {"cols": cols, "card": card, "labels": [[0, 1]] * n, "edges": edges, "rows": rows, "latents": lat,
-            "seed": rng.randrange(1000), "weights": None, "dtype": "int", "pass_state_names": False}
+            "seed": rng.randrange(1000), "weights": None, "dtype": "int", "pass_state_names": False,
+            # rows are dispatched to the E-step in batches of distinct rows: any batch size must give the same iterates
+            "batch_size": rng.choice([1000, 1000, 1, 2, 3, 5, 7])}
 
 
 def run_em(case, drv):
@@ -343,12 +345,27 @@ def run_em(case, drv):
     for k in (1, 2, 3, 4):
         try:
             em = ExpectationMaximization(m, df)
-            cpds = em.get_parameters(latent_card={names[v]: 2 for v in lat}, max_iter=k, seed=case["seed"], show_progress=False, n_jobs=1)
+            cpds = em.get_parameters(latent_card={names[v]: 2 for v in lat}, max_iter=k, seed=case["seed"], show_progress=False, n_jobs=1,
+                                     batch_size=case.get("batch_size", 1000))
         except Exception as e:
             return fail(f"EM(max_iter={k}) raised {type(e).__name__}: {e}", latents=len(lat))
         got = {c.variable: c for c in cpds}
         if set(got) != set(names):
             return fail(f"EM returned CPDs for {sorted(got)}", latents=len(lat))
+        if k == 2 and case.get("batch_size", 1000) != 1000:
+            # the batch size only says how the distinct rows are handed to the E-step: the iterates must not depend on it
+            try:
+                ref = ExpectationMaximization(m, df).get_parameters(latent_card={names[v]: 2 for v in lat}, max_iter=k, seed=case["seed"],
+                                                                    show_progress=False, n_jobs=1, batch_size=1000)
+            except Exception as e:
+                return fail(f"EM(batch_size=1000) raised {type(e).__name__}: {e}", latents=len(lat))
+            import numpy as np
+            for c in ref:
+                a_ = np.asarray(got[c.variable].values, dtype=float).reshape(-1)
+                b_ = np.asarray(c.values, dtype=float).reshape(-1)
+                if got[c.variable].variables != c.variables or a_.shape != b_.shape or np.abs(a_ - b_).max() > 1e-9:
+                    return fail(f"EM with batch_size={case['batch_size']} differs from batch_size=1000 after {k} iterations for {c.variable}: "
+                                f"{a_.tolist()} vs {b_.tolist()}", latents=len(lat), batch=case["batch_size"])
         # exact likelihood of the observed data under the returned parameters, by the Lean model
         fs = []
         import numpy as np
@@ -385,5 +402,5 @@ def run_em(case, drv):
 STREAMS = [
     Stream("estimators", gen_est, run_est, quick=700, thorough=8000),
     Stream("fit_update", gen_update, run_update, quick=200, thorough=2000),
-    Stream("em", gen_em, run_em, quick=60, thorough=600),
+    Stream("em", gen_em, run_em, quick=90, thorough=900),
 ]
